@@ -115,6 +115,11 @@ class Poly:
             return r
         return TOP
 
+    def __mod__(self, m):
+        if isinstance(m, int) and m > 0 and all(c.denominator == 1 for c in self.terms.values()):
+            return Poly({k: Fraction(int(c) % m) for k, c in self.terms.items()})
+        return TOP
+
     def __eq__(self, o):
         o = Poly.lift(o)
         return o is not None and self.terms == o.terms
